@@ -385,6 +385,9 @@ def dec(t, b, pv=4):
             out.append(unzigzag(u))
         if p != n:
             raise SpecError("trailing bytes in duration")
+        # DurationSerializer.validate: "The duration months/days must be a 32 bits integer"
+        if not (-(1 << 31) <= out[0] < (1 << 31)) or not (-(1 << 31) <= out[1] < (1 << 31)):
+            raise SpecError("duration months/days beyond int32")
         return tuple(out)
     if k in ('list', 'set'):
         items, p = _dec_seq(mv, [t[1]], pv)
@@ -506,4 +509,13 @@ def selfcheck():
     for x in (0, 1, -1, 63, -64, 64, -65, 2 ** 31 - 1, -2 ** 31, 2 ** 63 - 1, -2 ** 63):
         assert unzigzag(zigzag(x)) == x
         n += 1
+    # months / days are int32 on the wire (vint-coded): 2**31 months has no encoding and its would-be bytes are rejected
+    assert dec(('duration',), bytes.fromhex('f0ffffffff' '00' '00'), 4) == (-(1 << 31), 0, 0)
+    for hx in ('f100000000' '00' '00', '00' 'f100000001' '00'):
+        try:
+            dec(('duration',), bytes.fromhex(hx), 4)
+        except SpecError:
+            n += 1
+        else:
+            raise AssertionError("reference decoder accepted duration months/days beyond int32: %s" % hx)
     return n
